@@ -38,6 +38,8 @@ type Parser struct {
 	mi         int
 	num        gen.Number
 	rn         rune
+	hi         rune // pending high surrogate from a \u escape
+	hiEnd      int  // len(tmp) right after the placeholder for hi
 	result     any
 	mode       string
 	nextMode   string
@@ -107,6 +109,7 @@ func (p *Parser) Parse(buf []byte, args ...any) (any, error) {
 	p.line = 1
 	p.mode = valueMap
 	p.mi = 0
+	p.hi = 0
 	var err error
 	// Skip BOM if present.
 	if 3 < len(buf) && buf[0] == 0xEF {
@@ -166,6 +169,7 @@ func (p *Parser) ParseReader(r io.Reader, args ...any) (data any, err error) {
 	p.noff = -1
 	p.line = 1
 	p.mi = 0
+	p.hi = 0
 	buf := make([]byte, readBufSize)
 	eof := false
 	var cnt int
@@ -466,6 +470,7 @@ func (p *Parser) parseBuffer(buf []byte, last bool) error {
 			p.mode = expSignMap
 			continue
 		case strQuote:
+			p.hi = 0
 			p.mode = p.nextMode
 			if p.mode[':'] == colonColon {
 				p.stack = append(p.stack, gen.Key(p.tmp))
@@ -520,8 +525,19 @@ func (p *Parser) parseBuffer(buf []byte, last bool) error {
 				if len(p.runeBytes) < 6 {
 					p.runeBytes = make([]byte, 6)
 				}
+				if p.hi != 0 && p.hiEnd == len(p.tmp) && 0xDC00 <= p.rn && p.rn <= 0xDFFF {
+					// The low half of a surrogate pair. Replace the placeholder
+					// written for the high half with the combined code point.
+					p.tmp = p.tmp[:len(p.tmp)-3]
+					p.rn = 0x10000 + (p.hi-0xD800)<<10 + (p.rn - 0xDC00)
+				}
+				p.hi = 0
 				n := utf8.EncodeRune(p.runeBytes, p.rn)
 				p.tmp = append(p.tmp, p.runeBytes[:n]...)
+				if 0xD800 <= p.rn && p.rn <= 0xDBFF {
+					p.hi = p.rn
+					p.hiEnd = len(p.tmp)
+				}
 				p.mode = stringMap
 			}
 			continue
